@@ -45,6 +45,7 @@ SCENARIOS = {
     "multiple-inheritance": (["a", "b"], [], [("Trunk", "a", "b"), ("Cable", "b", "a")], {"a": "Gateway", "b": "Server"}, "secondary-base"),
     "link-leaves-universe": (["a", "b"], ["x"], [("DirectedEdge", "a", "b"), ("DirectedEdge", "a", "x")], {}, "default"),
     "title-format": (["a", "b"], [], [("DirectedEdge", "a", "b")], {}, "title-format"),
+    "title-format-property": (["a", "b"], [], [("DirectedEdge", "a", "b"), ("UnDirectedEdge", "b", "b")], {}, "title-format-property"),
     "falsy-vertices": (["a", "b", "c"], [], [("DirectedEdge", "a", "b"), ("UnDirectedEdge", "c", "a"), ("DirectedEdge", "c", "c")], {"a": "FalsyV", "c": "FalsyV"}, "default"),
 }
 
@@ -74,6 +75,15 @@ def options(h, g, variant):
                         p[1] = "T_{name}"
                     if p[0] == "show_attrs":
                         p[1] = Seq(["name"], "list")
+    elif variant == "title-format-property":
+        # the title is formatted from an attribute that is a property of the class (uid), not a dynamic instance attribute
+        for k, v in opts.pairs:
+            if k is g["Vertex"]:
+                for p in v.pairs:
+                    if p[0] == "title_format":
+                        p[1] = "{uid}"
+                    if p[0] == "show_attrs":
+                        p[1] = Seq(["uid"], "list")
     return opts
 
 
@@ -156,6 +166,9 @@ def run(ctx):
         res.undecide(f"{FN} on an empty universe: {u}")
     res.rule("PUML", n)
     resolve_rule(ctx, h, res)
+    from rules import hist
+    hist.run(ctx, res, 'C14', extra=('rules.histobs', 'puml'))       # composition: histories through the public API against the reference model (rules/hist.py)
+    common.vacuity(res, "HISTORY", 250)
     common.vacuity(res, "PUML", 19)
     res.analysed = common.analysed(ctx, [FN, "edgegraph.output.plantuml._one_link_to_puml", "edgegraph.output.plantuml._one_vert_to_puml", "edgegraph.output.plantuml._resolve_options", "edgegraph.output.plantuml._vertex_title"])
     res.explanation = ("In every scenario the derived text declares each member once under its configured title and type and contains exactly one correctly oriented relation line per internal "
@@ -234,6 +247,16 @@ def refers_to(key, obj):
         return False
     if walk(key):
         return True
+    # formatted from a field of the vertex that is an opaque scalar (its uid)
+    from sa.ae import Opaque
+    for val in obj.fields.values():
+        if isinstance(val, Opaque):
+            hit = ("id", id(val))
+
+            def walk2(k):
+                return k == hit or (isinstance(k, tuple) and any(walk2(x) for x in k))
+            if walk2(key):
+                return True
     # formatted title: payload holds the attribute value of the vertex (its name)
     return any(isinstance(x, str) and x == obj.name for x in flatten(key))
 
